@@ -61,3 +61,16 @@ Theorem c07_lindblad_form_is_gksl : forall (R : StarRing) n Nb (hg : nat -> R) (
   meq n (apply_ops n Nb Km (lindblad_L hg Km) (fun m => mT (lindblad_L hg Km m)) rho) (gksl n Nb hg Km rho).
 Proof. intros R n. exact (lindblad_is_gksl n). Qed.
 Print Assumptions c07_lindblad_form_is_gksl.
+
+(* the index walk over the stored values of a time-dependent tensor (time-local propagation with the tensor sampled on
+   the bath time axis, with a cut-off): the repaired rule never leaves the range of stored tensors, agrees with the
+   pinned rule below the cut-off, and the pinned rule ran off the end (IndexError in tensor form while the operator
+   form went on: the two forms did not generate the same dynamics); repaired by a fix: commit *)
+Theorem c07_td_index_walk : 
+  (forall k indxR stride cutoff, (2 <= cutoff)%nat -> (indxR <= cutoff - 1)%nat ->
+     Forall (fun i => (i < cutoff)%nat) (td_walk WalkRepaired k indxR stride cutoff)) /\
+  (forall indxR stride cutoff, (1 <= stride)%nat -> (indxR + stride <= cutoff - 1)%nat ->
+     walk_next WalkPinned indxR stride cutoff = walk_next WalkRepaired indxR stride cutoff) /\
+  (td_walk WalkPinned 4 1 1 3 = [1; 2; 3; 3]%nat /\ td_walk WalkRepaired 4 1 1 3 = [1; 2; 2; 2]%nat).
+Proof. split; [exact td_walk_repaired_in_range|]. split; [exact td_walk_same_below|exact td_walk_pinned_witness]. Qed.
+Print Assumptions c07_td_index_walk.
